@@ -288,3 +288,243 @@ Proof.
   intros x b. rewrite N.shiftr_div_pow2. change 1 with (N.ones 1) at 1. rewrite N.land_ones.
   change (2 ^ 1) with 2. symmetry. apply N.testbit_spec'.
 Qed.
+
+(* ---------- strictly ascending lists ---------- *)
+
+Lemma ascending_sorted : forall idx, ascending idx = true <-> StronglySorted N.lt idx.
+Proof.
+  induction idx as [|x r IH]; [split; [constructor|reflexivity]|].
+  destruct r as [|y r'].
+  - split; [intros _; repeat constructor|reflexivity].
+  - change (ascending (x :: y :: r')) with ((x <? y) && ascending (y :: r')).
+    rewrite andb_true_iff, IH, N.ltb_lt. split.
+    + intros [Hxy Hs]. constructor; [assumption|].
+      inversion Hs as [|? ? Hs' Hall]; subst.
+      constructor; [assumption|].
+      eapply Forall_impl; [|exact Hall]. cbn. intros. lia.
+    + intros Hs. inversion Hs as [|? ? Hs' Hall]; subst. split; [|assumption].
+      inversion Hall; assumption.
+Qed.
+
+Lemma sorted_tail_words : forall i r w,
+  Forall (N.lt i) r -> N.succ w <= word_of i -> Forall (fun j => N.succ w <= word_of j) r.
+Proof.
+  intros i r w Hall Hw. eapply Forall_impl; [|exact Hall]. cbn. intros j Hj.
+  pose proof (word_of_mono i j). lia.
+Qed.
+
+(* ---------- bitmap.Of ---------- *)
+
+Lemma lor_lt_64 : forall a b, a < 2 ^ 64 -> b < 2 ^ 64 -> N.lor a b < 2 ^ 64.
+Proof.
+  intros a b Ha Hb.
+  destruct (N.eq_dec (N.lor a b) 0) as [->|Hne]; [reflexivity|].
+  apply N.log2_lt_pow2; [lia|]. rewrite N.log2_lor.
+  destruct (N.eq_dec a 0) as [->|Ha0]; destruct (N.eq_dec b 0) as [->|Hb0].
+  - cbn. lia.
+  - apply N.max_lub_lt; [cbn; lia|apply N.log2_lt_pow2; lia].
+  - apply N.max_lub_lt; [apply N.log2_lt_pow2; lia|cbn; lia].
+  - apply N.max_lub_lt; apply N.log2_lt_pow2; lia.
+Qed.
+
+Lemma bit_lt_64 : forall b, b < 64 -> N.shiftl 1 b < 2 ^ 64.
+Proof. intros b Hb. rewrite N.shiftl_1_l. apply N.pow_lt_mono_r; lia. Qed.
+
+Lemma testbit_set : forall acc b c,
+  N.testbit (N.lor acc (N.shiftl 1 b)) c = N.testbit acc c || (b =? c).
+Proof.
+  intros. rewrite N.lor_spec, N.shiftl_1_l, N.pow2_bits_eqb. reflexivity.
+Qed.
+
+Lemma take_word_spec : forall w idx acc x r,
+  StronglySorted N.lt idx ->
+  Forall (fun i => w <= word_of i) idx ->
+  take_word w idx acc = (x, r) ->
+  (forall b, b < 64 -> (N.testbit x b = true <-> N.testbit acc b = true \/ In (64 * w + b) idx))
+  /\ StronglySorted N.lt r
+  /\ Forall (fun i => N.succ w <= word_of i) r
+  /\ (forall k, word_of k <> w -> (In k idx <-> In k r))
+  /\ (acc < 2 ^ 64 -> x < 2 ^ 64).
+Proof.
+  intros w idx. induction idx as [|i r0 IH]; intros acc x r Hs Hge H.
+  - cbn in H. injection H as <- <-. repeat split; auto; try tauto.
+    intros [?|[]]; assumption.
+  - inversion Hs as [|? ? Hs0 Hall]; subst. inversion Hge as [|? ? Hi Hge0]; subst.
+    cbn [take_word] in H. destruct (N.eqb_spec (word_of i) w) as [Ew|Ew].
+    + destruct (IH _ _ _ Hs0 Hge0 H) as (Ha & Hb & Hc & Hd & He).
+      repeat split; try assumption.
+      * intros Hx. apply Ha in Hx; [|assumption]. rewrite testbit_set, orb_true_iff, N.eqb_eq in Hx.
+        destruct Hx as [[Hx|Hx]|Hx]; auto.
+        right. left. rewrite (pos_split i), Ew, Hx. reflexivity.
+        right. right. assumption.
+      * intros Hx. apply Ha; [assumption|]. rewrite testbit_set, orb_true_iff, N.eqb_eq.
+        destruct Hx as [Hx|[Hx|Hx]]; auto.
+        left. right. rewrite Hx. apply bit_of_join. assumption.
+      * intros Hk. apply Hd; [assumption|]. destruct Hk as [Hk|Hk]; [congruence|assumption].
+      * intros Hk. right. apply Hd; assumption.
+      * intros Hacc. apply He. apply lor_lt_64; [assumption|apply bit_lt_64, bit_of_lt].
+    + injection H as <- <-.
+      assert (Hall' : Forall (fun j => N.succ w <= word_of j) (i :: r0)).
+      { constructor; [lia|]. apply (sorted_tail_words i); [assumption|lia]. }
+      repeat split; auto; try tauto.
+      intros [Hx|Hx]; [assumption|]. exfalso.
+      rewrite Forall_forall in Hall'. apply Hall' in Hx.
+      rewrite word_of_join in Hx by assumption. lia.
+Qed.
+
+Lemma bm_words_spec : forall n w0 idx,
+  StronglySorted N.lt idx ->
+  Forall (fun i => w0 <= word_of i) idx ->
+  Forall (fun i => word_of i < w0 + N.of_nat n) idx ->
+  length (bm_words n w0 idx) = n /\ words_ok (bm_words n w0 idx) /\
+  forall k, bm_get (bm_words n w0 idx) k = true <-> In (64 * w0 + k) idx.
+Proof.
+  induction n as [|n IH]; intros w0 idx Hs Hge Hlt.
+  - cbn [bm_words]. repeat split; [constructor| |].
+    + intros H. discriminate.
+    + intros H. exfalso. rewrite Forall_forall in Hge, Hlt.
+      pose proof (Hge _ H). pose proof (Hlt _ H). cbn in *. lia.
+  - cbn [bm_words]. destruct (take_word w0 idx 0) as [x r] eqn:E.
+    destruct (take_word_spec _ _ _ _ _ Hs Hge E) as (Ha & Hb & Hc & Hd & He).
+    assert (Hlt' : Forall (fun i => word_of i < N.succ w0 + N.of_nat n) r).
+    { rewrite Forall_forall in *. intros i Hi.
+      assert (word_of i <> w0) by (pose proof (Hc _ Hi); cbn in *; lia).
+      apply Hd in Hi; [|assumption]. apply Hlt in Hi. lia. }
+    destruct (IH (N.succ w0) r Hb Hc Hlt') as (IHa & IHb & IHc).
+    repeat split.
+    + cbn [length]. congruence.
+    + constructor; [apply He; reflexivity|assumption].
+    + intros H. destruct (N.lt_ge_cases k 64) as [Hk|Hk].
+      * rewrite bm_get_cons_low in H by assumption. apply Ha in H; [|assumption].
+        destruct H as [H|H]; [rewrite N.bits_0 in H; discriminate|assumption].
+      * replace k with (64 + (k - 64)) in H by lia. rewrite bm_get_cons_high in H.
+        apply IHc in H. apply Hd.
+        -- pose proof (word_of_mono (64 * N.succ w0 + 0) (64 * w0 + k)).
+           rewrite word_of_join in H0 by lia. lia.
+        -- replace (64 * w0 + k) with (64 * N.succ w0 + (k - 64)) by lia. assumption.
+    + intros H. destruct (N.lt_ge_cases k 64) as [Hk|Hk].
+      * rewrite bm_get_cons_low by assumption. apply Ha; auto.
+      * replace k with (64 + (k - 64)) by lia. rewrite bm_get_cons_high.
+        apply IHc. replace (64 * N.succ w0 + (k - 64)) with (64 * w0 + k) by lia.
+        apply Hd; [|assumption].
+        pose proof (word_of_mono (64 * N.succ w0 + 0) (64 * w0 + k)).
+        rewrite word_of_join in H0 by lia. lia.
+Qed.
+
+Lemma last_N_spec : forall idx m,
+  last_N idx = Some m -> In m idx /\ (StronglySorted N.lt idx -> Forall (fun i => i <= m) idx).
+Proof.
+  induction idx as [|x r IH]; intros m H; [discriminate|].
+  destruct r as [|y r'].
+  - injection H as <-. split; [left; reflexivity|]. intros _. constructor; [lia|constructor].
+  - change (last_N (x :: y :: r')) with (last_N (y :: r')) in H.
+    destruct (IH _ H) as [Hin Hle]. split; [right; assumption|].
+    intros Hs. inversion Hs as [|? ? Hs' Hall]; subst.
+    constructor; [|auto].
+    rewrite Forall_forall in Hall. apply Hall in Hin. lia.
+Qed.
+
+Lemma last_N_None : forall idx, last_N idx = None -> idx = [].
+Proof.
+  induction idx as [|x r IH]; [reflexivity|]. destruct r; [discriminate|].
+  intros H. change (last_N (x :: n :: r)) with (last_N (n :: r)) in H. apply IH in H. discriminate.
+Qed.
+
+Definition span_words (idx : list N) : N :=
+  match last_N idx with None => 0 | Some m => word_of m + 1 end.
+
+Theorem bm_of_spec : forall idx,
+  StronglySorted N.lt idx -> Forall (fun i => i < int32_max) idx ->
+  exists ws, bm_of idx = Val ws /\ words_ok ws /\
+             (forall k, bm_get ws k = true <-> In k idx) /\
+             N.of_nat (length ws) = span_words idx.
+Proof.
+  intros idx Hs Hok. unfold bm_of, span_words. destruct (last_N idx) as [m|] eqn:El.
+  - destruct (last_N_spec _ _ El) as [Hin Hle]. specialize (Hle Hs).
+    rewrite Forall_forall in Hok. pose proof (Hok _ Hin) as Hm.
+    destruct (N.leb_spec int32_max m) as [Hbad|_]; [lia|].
+    assert (Hn : N.shiftr (m + 1 + 63) 6 = word_of m + 1).
+    { rewrite N.shiftr_div_pow2, word_of_spec. change (2 ^ 6) with 64.
+      replace (m + 1 + 63) with (m + 1 * 64) by lia. rewrite N.div_add by lia. reflexivity. }
+    rewrite Hn.
+    destruct (bm_words_spec (N.to_nat (word_of m + 1)) 0 idx Hs) as (Ha & Hb & Hc).
+    + rewrite Forall_forall. intros. lia.
+    + rewrite Forall_forall in *. intros i Hi. pose proof (Hle _ Hi).
+      pose proof (word_of_mono i m). lia.
+    + eexists. split; [reflexivity|]. split; [assumption|]. split; [|lia].
+      intros k. rewrite Hc. replace (64 * 0 + k) with k by lia. reflexivity.
+  - apply last_N_None in El. subst. exists []. repeat split; try constructor.
+    + intros H. discriminate.
+    + intros [].
+Qed.
+
+Lemma bm_of_maxint32 : forall idx m, last_N idx = Some m -> int32_max <= m -> bm_of idx = Panic.
+Proof.
+  intros idx m H Hm. unfold bm_of. rewrite H.
+  destruct (N.leb_spec int32_max m); [reflexivity|lia].
+Qed.
+
+(* ---------- counting listed positions ---------- *)
+
+Lemma count_lt_none : forall idx n, Forall (fun i => n <= i) idx -> count_lt idx n = 0%nat.
+Proof.
+  induction idx as [|x r IH]; intros n H; [reflexivity|].
+  inversion H; subst. unfold count_lt in *. cbn [filter].
+  destruct (N.ltb_spec x n); [lia|]. auto.
+Qed.
+
+Lemma count_lt_succ : forall idx n,
+  StronglySorted N.lt idx ->
+  count_lt idx (N.succ n) = (count_lt idx n + (if existsb (N.eqb n) idx then 1 else 0))%nat.
+Proof.
+  induction idx as [|x r IH]; intros n Hs; [reflexivity|].
+  inversion Hs as [|? ? Hs' Hall]; subst.
+  unfold count_lt in *. cbn [filter existsb].
+  destruct (N.ltb_spec x (N.succ n)), (N.ltb_spec x n); try lia.
+  - cbn [length]. rewrite (IH n Hs').
+    destruct (N.eqb_spec n x); [lia|]. cbn [orb]. lia.
+  - assert (x = n) by lia. subst x.
+    assert (H1 : Forall (fun i => N.succ n <= i) r) by (eapply Forall_impl; [|exact Hall]; cbn; intros; lia).
+    assert (H2 : Forall (fun i => n <= i) r) by (eapply Forall_impl; [|exact Hall]; cbn; intros; lia).
+    pose proof (count_lt_none r _ H1) as C1. pose proof (count_lt_none r _ H2) as C2.
+    unfold count_lt in C1, C2. cbn [length]. rewrite C1, C2, N.eqb_refl. reflexivity.
+  - destruct (N.eqb_spec n x); [lia|]. cbn [orb]. apply (IH n Hs').
+Qed.
+
+Lemma count_below_sorted : forall f idx,
+  StronglySorted N.lt idx -> (forall k, f k = true <-> In k idx) ->
+  forall n, count_below f n = count_lt idx (N.of_nat n).
+Proof.
+  intros f idx Hs Hf. induction n as [|n IH].
+  - cbn. symmetry. apply count_lt_none. rewrite Forall_forall. intros. lia.
+  - rewrite count_below_S_r, Nat2N.inj_succ, count_lt_succ, IH by assumption.
+    assert (E : f (N.of_nat n) = existsb (N.eqb (N.of_nat n)) idx).
+    { apply eq_true_iff_eq. rewrite Hf, existsb_exists. split.
+      - intros H. exists (N.of_nat n). split; [assumption|apply N.eqb_refl].
+      - intros (y & Hy & Ey). apply N.eqb_eq in Ey. congruence. }
+    rewrite E. reflexivity.
+Qed.
+
+Lemma count_lt_nth : forall idx j,
+  StronglySorted N.lt idx -> (j < length idx)%nat -> count_lt idx (nth j idx 0) = j.
+Proof.
+  induction idx as [|x r IH]; intros j Hs Hj; [cbn in Hj; lia|].
+  inversion Hs as [|? ? Hs' Hall]; subst.
+  destruct j as [|j].
+  - cbn [nth]. apply count_lt_none. constructor; [lia|].
+    eapply Forall_impl; [|exact Hall]. cbn. intros. lia.
+  - cbn [nth]. cbn [length] in Hj.
+    assert (Hin : In (nth j r 0) r) by (apply nth_In; lia).
+    rewrite Forall_forall in Hall. apply Hall in Hin.
+    unfold count_lt in *. cbn [filter]. destruct (N.ltb_spec x (nth j r 0)); [|lia].
+    cbn [length]. f_equal. apply IH; [assumption|lia].
+Qed.
+
+(* rank of a listed position in the bitmap built from the list *)
+Theorem rank_of_listed : forall ws idx j,
+  StronglySorted N.lt idx -> (forall k, bm_get ws k = true <-> In k idx) ->
+  (j < length idx)%nat -> rank_spec ws (nth j idx 0) = N.of_nat j.
+Proof.
+  intros ws idx j Hs Hf Hj. unfold rank_spec.
+  rewrite (count_below_sorted _ idx Hs Hf), N2Nat.id, count_lt_nth by assumption. reflexivity.
+Qed.
